@@ -3,7 +3,7 @@
    writer (State::write_to, Entry::write_to), Spec.v = git's writer (validated against git 2.39.5 byte
    for byte in C24).  [wf_entry] = what an entry holds after decoding / what git stores. *)
 From GixV.Base Require Import Bytes BytesFacts Outcome.
-From GixV.C25 Require Import Sha1 Model Spec Write ProofsEntry ProofsWrite ProofsFile.
+From GixV.C25 Require Import Sha1 Model Spec Write ProofsEntry ProofsWrite ProofsFile ProofsEoie.
 Local Open Scope N_scope.
 
 (* the entry block the writer produces is byte for byte git's: entries marked REMOVE are skipped,
@@ -60,6 +60,18 @@ Theorem write_then_read_file_no_extensions : forall sha, (forall x, length (sha 
   from_bytes sha threads file = Ok (reread st v (sha (firstn (length file - 20) file))).
 Proof. exact L_write_then_read_file_no_extensions. Qed.
 
+(* ... and without that premise when the last entry that is written has a name of at least 28 bytes: the
+   byte where the size field of an EOIE extension would start lies inside that name and is not NUL *)
+Theorem write_then_read_file_long_last_name : forall sha, (forall x, length (sha x) = 20%nat) ->
+  forall st opt_tree opt_eoie threads l e,
+  Forall wf_entry (s_entries st) -> x_tree (s_exts st) = None -> s_sparse st = false ->
+  N.of_nat (length (live (s_entries st))) < 4294967296 ->
+  live (s_entries st) = l ++ [e] -> (28 <= length (e_path e))%nat ->
+  let '(v, file) := write_file sha st opt_tree opt_eoie in
+  v = required_version (s_entries st) /\
+  from_bytes sha threads file = Ok (reread st v (sha (firstn (length file - 20) file))).
+Proof. exact L_write_then_read_file_long_last_name. Qed.
+
 (* non-vacuity *)
 Definition ex_entry (fl : N) (p : bytes) : entry :=
   mkEntry [1;2;3;4;5;6;33188;7;8;4294967295] (repeat xab 20) fl p.
@@ -90,3 +102,15 @@ Example ex_file_no_extensions :
   from_bytes sha1 1 file = Ok (reread st 3 (sha1 (firstn (length file - 20) file))) /\
   from_bytes sha1 8 file = from_bytes sha1 1 file /\ length file = (12 + 72 + 72 + 20)%nat.
 Proof. vm_compute. repeat split; reflexivity. Qed.
+
+Example ex_long_last_name :
+  let e := ex_entry 0 (bs "a-name-of-at-least-28-bytes.txt") in
+  let st := mkState 2 [ex_entry 0 (bs "a"); e; ex_entry 131072 (bs "gone")] false exts_default None in
+  wf_entry e /\ live (s_entries st) = [ex_entry 0 (bs "a")] ++ [e] /\ (28 <= length (e_path e))%nat.
+Proof.
+  split; [|split; [reflexivity|cbn; repeat constructor]].
+  unfold wf_entry, ex_entry; cbn [e_words e_id e_flags e_path].
+  repeat split; try reflexivity.
+  - repeat constructor.
+  - cbn. intuition discriminate.
+Qed.
